@@ -317,6 +317,7 @@ def directed():
         # rules in effect, an older rule's file disappears, a refused update: the surviving rules must still act
         (H, [["set", "mh", [5, 8]], ["file", 1, False, [4]], ["set", "mh", [1, 6]], ["flow", post], rh]),
         (B, [["set", "mb", [1, 5, 8]], ["file", 1, False, [5, 1]], ["set", "mb", [2, 6]], ["flow", flow_t(qb=[1, 3, 2, 4])], rh, rq]),
+        (M, [["set", "ml", [6, 5]], ["file", 5, False, [1, 1]], ["set", "ml", [5, 9]], ["flow", flow_t(path=[1, 2])], rh, rq]),
         # a second accepted update replaces the first one completely
         (H, [["set", "mh", [1]], ["set", "mh", [3]], ["flow", post], rh, rq, ["respond", WH_RESPS[0]], sh, rs]),
         (B, [["set", "mb", [1]], ["set", "mb", [2]], ["flow", flow_t(qb=[1, 2])], rh, rq, ["respond", WB_RESPS[0]], sh, rs]),
